@@ -3,14 +3,15 @@ import props
 from optable import Cfg, driver_stage, lang_stage
 
 SINGLE = [
-    ('cxx98', ['-DGLM_FORCE_CXX98']), ('cxx03', ['-DGLM_FORCE_CXX03']), ('cxx11', ['-DGLM_FORCE_CXX11']), ('cxx14', ['-DGLM_FORCE_CXX14']),
-    ('cxx17', ['-DGLM_FORCE_CXX17']), ('cxx20', ['-DGLM_FORCE_CXX20']),
-    ('inline', ['-DGLM_FORCE_INLINE']), ('explicit_ctor', ['-DGLM_FORCE_EXPLICIT_CTOR']), ('ctor_init', ['-DGLM_FORCE_CTOR_INIT']),
-    ('size_t_length', ['-DGLM_FORCE_SIZE_T_LENGTH']), ('xyzw_only', ['-DGLM_FORCE_XYZW_ONLY']), ('swizzle', ['-DGLM_FORCE_SWIZZLE']),
-    ('unrestricted', ['-DGLM_FORCE_UNRESTRICTED_GENTYPE']), ('wxyz', ['-DGLM_FORCE_QUAT_DATA_WXYZ']),
-    ('platform_unknown', ['-DGLM_FORCE_PLATFORM_UNKNOWN']), ('compiler_unknown', ['-DGLM_FORCE_COMPILER_UNKNOWN']), ('arch_unknown', ['-DGLM_FORCE_ARCH_UNKNOWN']),
-    ('cxxunknown', ['-DGLM_FORCE_CXX_UNKNOWN']), ('pure', ['-DGLM_FORCE_PURE']),
+    ('cxx98', ['-DGLM_FORCE_CXX98=']), ('cxx03', ['-DGLM_FORCE_CXX03=']), ('cxx11', ['-DGLM_FORCE_CXX11=']), ('cxx14', ['-DGLM_FORCE_CXX14=']),
+    ('cxx17', ['-DGLM_FORCE_CXX17=']), ('cxx20', ['-DGLM_FORCE_CXX20=']),
+    ('inline', ['-DGLM_FORCE_INLINE=']), ('explicit_ctor', ['-DGLM_FORCE_EXPLICIT_CTOR=']), ('ctor_init', ['-DGLM_FORCE_CTOR_INIT=']),
+    ('size_t_length', ['-DGLM_FORCE_SIZE_T_LENGTH=']), ('xyzw_only', ['-DGLM_FORCE_XYZW_ONLY=']), ('swizzle', ['-DGLM_FORCE_SWIZZLE=']),
+    ('unrestricted', ['-DGLM_FORCE_UNRESTRICTED_GENTYPE=']), ('wxyz', ['-DGLM_FORCE_QUAT_DATA_WXYZ=']),
+    ('platform_unknown', ['-DGLM_FORCE_PLATFORM_UNKNOWN=']), ('compiler_unknown', ['-DGLM_FORCE_COMPILER_UNKNOWN=']), ('arch_unknown', ['-DGLM_FORCE_ARCH_UNKNOWN=']),
+    ('cxxunknown', ['-DGLM_FORCE_CXX_UNKNOWN=']), ('pure', ['-DGLM_FORCE_PURE=']),
 ]
+# the single-macro configurations define the macro empty (`#define GLM_FORCE_X`, the documented form); the combinations use -DX (value 1)
 COMBOS = [
     ('cxx98+ctor_init+wxyz', ['-DGLM_FORCE_CXX98', '-DGLM_FORCE_CTOR_INIT', '-DGLM_FORCE_QUAT_DATA_WXYZ']),
     ('cxx11+inline+xyzw_only+size_t', ['-DGLM_FORCE_CXX11', '-DGLM_FORCE_INLINE', '-DGLM_FORCE_XYZW_ONLY', '-DGLM_FORCE_SIZE_T_LENGTH']),
